@@ -112,7 +112,16 @@ func Assert(c bool, label string) {
 
 func Reach(label string)  {}
 func Option(name string)  {}
-func SetCwd(dir string)   {}
+// SetCwd sets the working directory seen by filepath.Abs: a model variable under
+// gosym, a real chdir (directory created if needed) natively.
+func SetCwd(dir string) {
+	if err := os.MkdirAll(dir, 0700); err != nil {
+		panic(err)
+	}
+	if err := os.Chdir(dir); err != nil {
+		panic(err)
+	}
+}
 func IsSymbolic() bool    { return false }
 func RaceFree(label string) {}
 func MapOrderAdversarial(tag string) {}
